@@ -324,14 +324,24 @@ fn shipped_lane(ctx: &mut Ctx, idx: u64) {
     let keys: Vec<(&str, bool)> = kind.fields.iter().map(|f| (f.name, f.mandatory)).collect();
     // the paragraphs are assembled from the pairs, or read by the two readers from one text in which list-valued
     // fields may start on the line after the name (the layout such fields have in real files)
-    let from_text = (idx / KINDS.len() as u64) % 3 == 1 && !pairs.is_empty();
+    let mode = (idx / KINDS.len() as u64) % 4;
+    let from_text = (mode == 1 || mode == 3) && !pairs.is_empty();
+    // mode 3: the lossless paragraph is a copy of the lossy one made through the public item iterator
+    let copy_items = mode == 3 && from_text;
     let mut text = String::new();
     if from_text {
         super::c20::write_para(&mut r, &pairs, false, &mut text);
         ctx.count(if text.contains(":\n ") { "paragraphs:read-from-text:next-line-layout" } else { "paragraphs:read-from-text" });
+        if copy_items {
+            ctx.count("paragraphs:lossless-copied-from-lossy-items");
+        }
     }
     let built = guard(8192, || {
-        let (pl, pll): (lossy::Paragraph, Paragraph) = if from_text {
+        let (pl, pll): (lossy::Paragraph, Paragraph) = if copy_items {
+            let pl = lossy::Paragraph::from_str(&text).expect("lossy reader");
+            let pll: Paragraph = pl.iter().map(|(k, v)| (k.to_string(), v.to_string())).collect();
+            (pl, pll)
+        } else if from_text {
             (lossy::Paragraph::from_str(&text).expect("lossy reader"), Paragraph::from_str(&text).expect("lossless reader"))
         } else {
             (pairs.iter().cloned().collect(), pairs.iter().cloned().collect())
